@@ -154,7 +154,7 @@ func runC15(c *ctx) error {
 	rng := c.rng.Fork()
 	for mask := 0; mask < 1<<len(kindKeys); mask += stride {
 		for _, ty := range types {
-			for variant := 0; variant < 3; variant++ {
+			for variant := 0; variant < 4; variant++ {
 				o := ordered.NewMap[string, any](8)
 				keys := map[string]bool{}
 				var keyList []any
@@ -196,7 +196,11 @@ func runC15(c *ctx) error {
 				for i, ki := range order {
 					k := kindKeys[ki]
 					if mask&(1<<ki) != 0 {
-						o.Set(k, kindKeyValue(k))
+						if variant == 3 {
+							o.Set(k, nil) // every kind key with a null value: still that key, still that kind
+						} else {
+							o.Set(k, kindKeyValue(k))
+						}
 						keys[k] = true
 						keyList = append(keyList, k)
 					}
@@ -247,6 +251,9 @@ func runC15(c *ctx) error {
 				if variant == 2 {
 					c.res.Hist("kind-keys-shuffled")
 				}
+				if variant == 3 {
+					c.res.Hist("kind-keys-null-valued")
+				}
 				if mask == 0b1000001001 && ty.tag == "absent" && variant == 0 {
 					c.res.Sample(desc)
 				}
@@ -280,7 +287,7 @@ func runC15(c *ctx) error {
 	}
 	c.res.Sample(map[string]any{"scalar": "waiter"})
 	c.res.Exhaustive = true
-	c.res.Rule = "every subset of the ten kind keys x every type value (9 known, 4 unknown strings, 4 non-strings, absent), each once plain, once with 1-3 extra keys from an adversarial pool at a random position, and once with the kind keys in a shuffled document order, through the real stepFromMap; all scalar strings of a pool through unmarshalStep. Non-trivial = at least one kind key or a type; distinct by (subset, type, extras)."
+	c.res.Rule = "every subset of the ten kind keys x every type value (9 known, 4 unknown strings, 4 non-strings, absent), each once plain, once with 1-3 extra keys from an adversarial pool at a random position, once with the kind keys in a shuffled document order, and once with every kind key null-valued, through the real stepFromMap; all scalar strings of a pool through unmarshalStep. Non-trivial = at least one kind key or a type; distinct by (subset, type, extras)."
 	mm, total, err := core.RunSessions(c.driver, []*core.Session{sess}, 20, 0)
 	c.res.ModelRequests = total
 	c.res.Mismatches = mm
